@@ -4,7 +4,8 @@
   `exec_refines_lexical_partial`: for the command fragment
 
       raw text, {print e} (no directives), {css}, {debugger}, {log}, {if}/{elseif}/{else},
-      {let $x: e /}, {let $x}…{/let}, header params        — nested arbitrarily,
+      {switch}/{case}/{default}, {foreach $x in [e₁, …]}…{ifempty}… (the list given as a literal),
+      {let $x: e /}, {let $x}…{/let}, header params — nested arbitrarily,
       with expressions of the scalar operator fragment of Props/C01.lean,
 
   over scalar data: whenever the lexical specification yields text, the model's walk (dynamic scope
@@ -13,8 +14,8 @@
   `let` is visible to the end of its block and not after it, and shadows an outer name only there;
   whenever the specification yields an error the model yields an error.
 
-  Missing for the full `exec_refines_lexical`: {foreach}/{for} (needs list values, outside the scalar
-  fragment), {switch}, {call} (a simulation across the callee's scope), {msg}.  Those are covered by the
+  Missing for the full `exec_refines_lexical`: {foreach} over a list VALUE and {for … in range(…)} (list
+  values and functions are outside the scalar expression fragment), {call} (a simulation across the callee's scope), {msg}.  Those are covered by the
   scoping theorems of Props/C02.lean and by the Spec.render oracle of the C02exec correspondence.
 -/
 import SoyVerif.Lemmas.ExecRefine
@@ -29,6 +30,11 @@ def optFrag : Option Expr → Bool
   | none => true
   | some e => frag e
 
+/-- the items of a list literal -/
+def fragList : ExprList → Bool
+  | .nil => true
+  | .cons e r => frag e && fragList r
+
 mutual
 def cfrag : Cmd → Bool
   | .rawText _ _ => true
@@ -37,6 +43,9 @@ def cfrag : Cmd → Bool
   | .debugger _ => true
   | .log _ b => bfrag b
   | .ifc _ conds => condsFrag conds
+  | .switch _ v cases => frag v && casesFrag cases
+  | .forc _ _ (.list _ items) body none => fragList items && bfrag body
+  | .forc _ _ (.list _ items) body (some b) => fragList items && bfrag body && bfrag b
   | .letValue _ _ e => frag e
   | .letContent _ _ b => bfrag b
   | .headerParam _ _ _ _ _ _ => true
@@ -49,6 +58,9 @@ def csFrag : CmdList → Bool
 def condsFrag : CondList → Bool
   | .nil => true
   | .cons _ c b r => optFrag c && bfrag b && condsFrag r
+def casesFrag : CaseList → Bool
+  | .nil => true
+  | .cons _ vs b r => vs.all frag && bfrag b && casesFrag r
 end
 
 /-- the model's scope (through the heap) and the lexical environment bind the same scalars -/
@@ -56,9 +68,9 @@ def Rel (g : GEnv) (ctx : Scope) (st : St) (env : Spec.Eval.Env) : Prop := EnvRe
 
 theorem Rel.of_lookup {g : GEnv} {ctx : Scope} {st st' : St} {env : Spec.Eval.Env} (h : Rel g ctx st env)
     (hl : ∀ k, lookup st'.heap ctx k = lookup st.heap ctx k) : Rel g ctx st' env := by
-  refine ⟨fun k => ?_, fun k => ?_, h.globals⟩
+  refine ⟨fun k hk => ?_, fun k => ?_, h.globals⟩
   · show absV (lookup st'.heap ctx k) = _
-    rw [hl k]; exact h.vars k
+    rw [hl k]; exact h.vars k hk
   · show Scalar (lookup st'.heap ctx k) = true
     rw [hl k]; exact h.scalar k
 
@@ -73,6 +85,21 @@ def AgreeB (g : GEnv) (ctx : Scope) (st : St) (env : Spec.Eval.Env) (r : R) : Ou
   | .val out => r.cls = .ok ∧ bufBytes r.st.out = bufBytes st.out ++ out ∧ Rel g ctx r.st env
   | .error => r.cls = .err
   | .unspec => True
+
+/-- the specification's agreement does not look at `s.node` -/
+theorem Agree.of_atNode {g : GEnv} {ctx : Scope} {st : St} {p : Nat} {r : R} {o : Spec.Eval.ROut}
+    (h : Agree g ctx (atNode st p) r o) : Agree g ctx st r o := by
+  cases o with
+  | unspec => trivial
+  | error => exact h
+  | val q => exact h
+
+theorem AgreeB.of_atNode {g : GEnv} {ctx : Scope} {st : St} {env : Spec.Eval.Env} {p : Nat} {r : R} {o : Out Bytes}
+    (h : AgreeB g ctx (atNode st p) env r o) : AgreeB g ctx st env r o := by
+  cases o with
+  | unspec => trivial
+  | error => exact h
+  | val q => exact h
 
 theorem absV_undefined (mv : Value) (h : absV mv = .undefined) : mv = .undefined := by
   cases mv <;> simp [absV] at h ⊢
@@ -92,6 +119,62 @@ theorem evalIn_sim {g : GEnv} {ctx : Scope} {st : St} {env : Spec.Eval.Env} (hr 
 theorem Rel.of_heap {g : GEnv} {ctx : Scope} {st st' : St} {env : Spec.Eval.Env} (h : Rel g ctx st env)
     (hh : st'.heap = st.heap) : Rel g ctx st' env := h.of_lookup (fun k => by rw [hh])
 
+theorem helper_index (v : Bytes) : C01.isHelper (v ++ sIndexSuffix) = true := by
+  simp [C01.isHelper, List.isSuffixOf_iff_suffix]
+theorem helper_last (v : Bytes) : C01.isHelper (v ++ sLastIndexSuffix) = true := by
+  simp [C01.isHelper, List.isSuffixOf_iff_suffix]
+
+/-- the items of a list literal, left to right -/
+theorem evalArgs_sim {m : EEnv} {env : Spec.Eval.Env} (hr : EnvRel m env) :
+    (items : ExprList) → fragList items = true → ∀ n,
+      (∀ vs, Spec.Eval.evalList env items = .val vs →
+        ∃ mvs n', evalArgs m items n = some (mvs, n') ∧ absL mvs = vs ∧ ∀ x ∈ mvs, Scalar x = true) ∧
+      (Spec.Eval.evalList env items = .error → evalArgs m items n = none)
+  | .nil, _, n => by
+    rw [Spec.Eval.evalList, evalArgs]
+    exact ⟨fun vs h => by simp only [Out.val.injEq] at h; exact ⟨[], n, rfl, by rw [← h]; rfl, by simp⟩, fun h => by simp at h⟩
+  | .cons e r, hf, n => by
+    simp only [fragList, Bool.and_eq_true] at hf
+    have he := C01.eval_refines_spec_partial hr e hf.1 n
+    rw [Spec.Eval.evalList, evalArgs]
+    refine ⟨fun vs hv => ?_, fun herr => ?_⟩
+    · obtain ⟨v, hv1, hv⟩ := C01.bind_val hv
+      obtain ⟨vr, hv2, hv⟩ := C01.bind_val hv
+      obtain ⟨mv, n1, h1, h2, h3⟩ := he.1 v hv1
+      obtain ⟨mvs, n2, h4, h5, h6⟩ := (evalArgs_sim hr r hf.2 n1).1 vr hv2
+      simp only [Out.val.injEq] at hv
+      rw [h1]; simp only [h4]
+      refine ⟨mv :: mvs, n2, rfl, by rw [← hv, absL, h2, h5], ?_⟩
+      intro x hx
+      rcases List.mem_cons.mp hx with rfl | hx
+      · exact h3
+      · exact h6 x hx
+    · rcases C01.bind_err herr with h | ⟨v, hv1, herr⟩
+      · rw [he.2 h]
+      · obtain ⟨mv, n1, h1, _, _⟩ := he.1 v hv1
+        rw [h1]
+        rcases C01.bind_err herr with h | ⟨vr, _, h⟩
+        · simp only [(evalArgs_sim hr r hf.2 n1).2 h]
+        · simp at h
+
+/-- `{foreach $x in [e₁, …]}`: the list literal through `evalIn` -/
+theorem evalIn_list_sim {g : GEnv} {ctx : Scope} {st : St} {env : Spec.Eval.Env} (hr : Rel g ctx st env) (p : Nat)
+    (items : ExprList) (hf : fragList items = true) :
+    (∀ v, Spec.Eval.eval env (.list p items) = .val v → ∃ id mvs st1, evalIn g (.list p items) ctx st = some (.list id mvs, st1) ∧
+        v = .list (absL mvs) ∧ (∀ x ∈ mvs, Scalar x = true) ∧ st1.heap = st.heap ∧ st1.out = st.out) ∧
+    (Spec.Eval.eval env (.list p items) = .error → evalIn g (.list p items) ctx st = none) := by
+  have h := evalArgs_sim hr items hf st.next
+  rw [Spec.Eval.eval]
+  refine ⟨fun v hv => ?_, fun herr => ?_⟩
+  · obtain ⟨vs, hv1, hv⟩ := C01.bind_val hv
+    obtain ⟨mvs, n', h1, h2, h3⟩ := h.1 vs hv1
+    simp only [Out.val.injEq] at hv
+    refine ⟨(listId mvs.length n').1, mvs, { st with next := (listId mvs.length n').2 }, ?_, by rw [← hv, h2], h3, rfl, rfl⟩
+    simp [evalIn, evalE, h1]
+  · rcases C01.bind_err herr with h' | ⟨vs, _, h'⟩
+    · simp [evalIn, evalE, h.2 h']
+    · simp at h'
+
 section
 variable (g : GEnv) (hob : g.oblig = []) (esc : Bool) (call : Registry.Tmpl → Run) (hcall : ∀ t, GoodRun (call t))
   (reg : Registry.Reg) (hasBundle : Bool) (entry : Spec.Eval.Binds) (scall : Registry.Tmpl → Spec.Eval.CallEnv → Out Bytes)
@@ -104,9 +187,9 @@ theorem block_agree (body : Run) (sbody : Spec.Eval.Env → Out Bytes) (hgood : 
     AgreeB g ctx st env (walkBlockOf body ctx st) (sbody env) := by
   obtain ⟨hctx1, hown1, hext1, hout1⟩ := push_spec ctx st
   have hr1 : Rel g (push ctx st).1 (push ctx st).2 env := by
-    refine ⟨fun k => ?_, fun k => ?_, hr.globals⟩
+    refine ⟨fun k hk => ?_, fun k => ?_, hr.globals⟩
     · show absV (lookup (push ctx st).2.heap (push ctx st).1 k) = _
-      rw [lookup_push ctx st hok k]; exact hr.vars k
+      rw [lookup_push ctx st hok k]; exact hr.vars k hk
     · show Scalar (lookup (push ctx st).2.heap (push ctx st).1 k) = true
       rw [lookup_push ctx st hok k]; exact hr.scalar k
   have hok1 : ScopeOk (push ctx st).1 (push ctx st).2 := by
@@ -137,6 +220,52 @@ theorem block_agree (body : Run) (sbody : Spec.Eval.Env → Out Bytes) (hgood : 
     -- the block's bindings are gone: every lookup through `ctx` reads what it read before
     rw [heq] at hwb
     exact hr.of_lookup (C02.lookup_ext hwb.ext ctx hok)
+
+omit hob in
+/-- the case values of a {switch}: `matchCase` against the specification's `matchAny` -/
+theorem matchCase_sim {ctx : Scope} {env : Spec.Eval.Env} (sv : Value) (hsv : Scalar sv = true) :
+    ∀ (vs : List Expr) (st : St), Rel g ctx st env → vs.all frag = true →
+      (∀ b, Spec.Eval.matchAny env (absV sv) vs = .val b →
+        ∃ st1, matchCase g ctx sv vs st = some (b, st1) ∧ st1.heap = st.heap ∧ st1.out = st.out) ∧
+      (Spec.Eval.matchAny env (absV sv) vs = .error → matchCase g ctx sv vs st = none) := by
+  intro vs
+  induction vs with
+  | nil =>
+    intro st _ _
+    refine ⟨fun b hb => ?_, fun h => ?_⟩
+    · simp only [Spec.Eval.matchAny, Out.val.injEq] at hb
+      exact ⟨st, by simp [matchCase, hb], rfl, rfl⟩
+    · simp [Spec.Eval.matchAny] at h
+  | cons e r ih =>
+    intro st hr hf
+    simp only [List.all_cons, Bool.and_eq_true] at hf
+    obtain ⟨h1, h2⟩ := evalIn_sim hr e hf.1
+    unfold matchCase Spec.Eval.matchAny
+    cases hv : Spec.Eval.eval env e with
+    | unspec => simp [Spec.Eval.Out.bind]
+    | error => simp [Spec.Eval.Out.bind, h2 hv]
+    | val v =>
+      obtain ⟨mv, st1, he, habs, hsc, hheap, hout⟩ := h1 v hv
+      obtain ⟨q1, q2⟩ := equals_refines sv mv hsv hsc
+      rw [habs] at q1 q2
+      simp only [Spec.Eval.Out.bind, he]
+      cases hq : Spec.Eval.equalsV (absV sv) v with
+      | unspec => simp
+      | error => exact absurd hq q2
+      | val b =>
+        rw [q1 b hq]
+        cases b with
+        | true =>
+          simp only [if_true]
+          refine ⟨fun b hb => ?_, fun h => by simp at h⟩
+          simp only [Out.val.injEq] at hb
+          exact ⟨st1, by rw [hb], hheap, hout⟩
+        | false =>
+          simp only [Bool.false_eq_true, if_false]
+          obtain ⟨i1, i2⟩ := ih st1 (hr.of_heap hheap) hf.2
+          refine ⟨fun b hb => ?_, i2⟩
+          obtain ⟨st2, hm, hh, ho⟩ := i1 b hb
+          exact ⟨st2, hm, by rw [hh, hheap], by rw [ho, hout]⟩
 
 /-- the specification's command list with the environment it ends in -/
 def cmdsE : CmdList → Spec.Eval.Env → Spec.Eval.ROut
@@ -172,17 +301,127 @@ theorem find_bind (env : Spec.Eval.Env) (name : Bytes) (v : Val) (k : Bytes) :
 theorem Rel.set {ctx : Scope} {st st2 : St} {env : Spec.Eval.Env} {name : Bytes} {mv : Value}
     (hr : Rel g ctx st env) (hown : Own ctx st) (hs : Eval.set ctx st name mv = some st2) (hsc : Scalar mv = true) :
     Rel g ctx st2 (env.bind name (absV mv)) := by
-  refine ⟨fun k => ?_, fun k => ?_, hr.globals⟩
+  refine ⟨fun k hk => ?_, fun k => ?_, hr.globals⟩
   · show absV (lookup st2.heap ctx k) = _
     rw [lookup_set hown hs k, find_bind]
     split
     · rfl
-    · exact hr.vars k
+    · exact hr.vars k hk
   · show Scalar (lookup st2.heap ctx k) = true
     rw [lookup_set hown hs k]
     split
     · exact hsc
     · exact hr.scalar k
+
+omit hob in
+/-- the iterations of a {foreach}: each runs in a frame of its own that binds the loop variable (and the
+    helpers, which the fragment cannot read); afterwards every binding is what it was -/
+theorem loop_agree (body : Run) (sbody : Spec.Eval.Env → Out Bytes) (hgood : GoodRun body)
+    (hb : ∀ ctx st env, Rel g ctx st env → Own ctx st → ScopeOk ctx st →
+      ∃ o : Spec.Eval.ROut, (Agree g ctx st (body ctx st) o) ∧ sbody env = o.bind fun p => .val p.1)
+    (var : Bytes) (last : Int) (lastN : Nat) :
+    ∀ (xs : List Value) (i : Nat) (ctx : Scope) (st : St) (env : Spec.Eval.Env),
+      Rel g ctx st env → ScopeOk ctx st → (∀ x ∈ xs, Scalar x = true) →
+      AgreeB g ctx st env (forLoop body var last xs i ctx st) (Spec.Eval.loopSpec sbody env var lastN (absL xs) i) := by
+  intro xs
+  induction xs with
+  | nil => intro i ctx st env hr _ _; unfold forLoop; rw [absL, Spec.Eval.loopSpec]; exact ⟨rfl, by simp, hr⟩
+  | cons x rest ih =>
+    intro i ctx st env hr hok hsc
+    have hx : Scalar x = true := hsc x List.mem_cons_self
+    have hrest : ∀ y ∈ rest, Scalar y = true := fun y hy => hsc y (List.mem_cons_of_mem _ hy)
+    obtain ⟨hctx1, hown1, hext1, hout1⟩ := push_spec ctx st
+    have htop : top (push ctx st).1 = st.heap.length := by rw [hctx1]; rfl
+    have fresh : ∀ {s' : St}, Ext (fun i => i = top (push ctx st).1) (push ctx st).2 s' → Ext (fun _ => False) st s' :=
+      fun e => (hext1 (fun _ => False)).trans e (fun i hi hw => by rw [htop] at hw; omega)
+    unfold forLoop
+    rw [absL, Spec.Eval.loopSpec]
+    simp only
+    cases h2 : Eval.set (push ctx st).1 (push ctx st).2 (var ++ sLastIndexSuffix) (.int (Int64.ofInt last)) with
+    | none => exact absurd h2 (set_ne_none hown1)
+    | some st2 =>
+      have e2 := set_ext hown1 h2
+      have own2 := hown1.ext e2
+      simp only
+      cases h3 : Eval.set (push ctx st).1 st2 var x with
+      | none => exact absurd h3 (set_ne_none own2)
+      | some st3 =>
+        have e3 := e2.trans (set_ext own2 h3) (fun _ _ h => h)
+        have own3 := hown1.ext e3
+        simp only
+        cases h4 : Eval.set (push ctx st).1 st3 (var ++ sIndexSuffix) (.int (Int64.ofInt i)) with
+        | none => exact absurd h4 (set_ne_none own3)
+        | some st4 =>
+          have e4 := e3.trans (set_ext own3 h4) (fun _ _ h => h)
+          have own4 := hown1.ext e4
+          simp only
+          -- the iteration's environment
+          have hlk : ∀ k, lookup st4.heap (push ctx st).1 k =
+              if k == var ++ sIndexSuffix then .int (Int64.ofInt i)
+              else if k == var then x
+              else if k == var ++ sLastIndexSuffix then .int (Int64.ofInt last)
+              else lookup st.heap ctx k := by
+            intro k
+            rw [lookup_set own3 h4 k, lookup_set own2 h3 k, lookup_set hown1 h2 k, lookup_push ctx st hok k]
+          have hr4 : Rel g (push ctx st).1 st4 { (env.bind var (absV x)) with loops := (var, i, lastN) :: env.loops } := by
+            refine ⟨fun k hk => ?_, fun k => ?_, hr.globals⟩
+            · show absV (lookup st4.heap (push ctx st).1 k) = (env.bind var (absV x)).lookup k
+              rw [hlk k, find_bind]
+              have n1 : (k == var ++ sIndexSuffix) = false := by
+                apply beq_false_of_ne; intro e; rw [e, helper_index] at hk; cases hk
+              have n2 : (k == var ++ sLastIndexSuffix) = false := by
+                apply beq_false_of_ne; intro e; rw [e, helper_last] at hk; cases hk
+              simp only [n1, n2, Bool.false_eq_true, if_false]
+              split
+              · rfl
+              · exact hr.vars k hk
+            · show Scalar (lookup st4.heap (push ctx st).1 k) = true
+              rw [hlk k]
+              split
+              · rfl
+              · split
+                · exact hx
+                · split
+                  · rfl
+                  · exact hr.scalar k
+          have hok4 : ScopeOk (push ctx st).1 st4 := by
+            intro f hf
+            rw [hctx1] at hf
+            have hl : st.heap.length + 1 ≤ st4.heap.length := by
+              have := e4.len; simp [push] at this; omega
+            rcases List.mem_cons.mp hf with rfl | hf
+            · simp only; omega
+            · have := hok f hf; omega
+          obtain ⟨o, hag, hs⟩ := hb _ st4 _ hr4 own4 hok4
+          have hg := hgood _ st4 own4
+          have e5 := e4.trans hg.ext (fun _ _ h => h)
+          have hout4 : st4.out = st.out := by
+            rw [Refine.set_out h4, Refine.set_out h3, Refine.set_out h2]; exact hout1
+          rw [hs]
+          cases o with
+          | unspec => simp [Spec.Eval.Out.bind, AgreeB]
+          | error =>
+            simp only [Agree] at hag
+            simp [Spec.Eval.Out.bind, AgreeB, hag]
+          | val q =>
+            obtain ⟨out, env'⟩ := q
+            simp only [Agree] at hag
+            obtain ⟨hcls, hbytes, _⟩ := hag
+            simp only [Spec.Eval.Out.bind, hcls]
+            rw [hg.ctx_eq hcls, hctx1]
+            simp only [pop_cons]
+            have hext : Ext (fun _ => False) st (body (push ctx st).1 st4).st := fresh e5
+            have hr5 : Rel g ctx (body (push ctx st).1 st4).st env := hr.of_lookup (C02.lookup_ext hext ctx hok)
+            have hok5 : ScopeOk ctx (body (push ctx st).1 st4).st := fun f hf' => Nat.lt_of_lt_of_le (hok f hf') hext.len
+            have hi := ih (i + 1) ctx _ env hr5 hok5 hrest
+            rw [hctx1] at hi hbytes
+            cases hl : Spec.Eval.loopSpec sbody env var lastN (absL rest) (i + 1) with
+            | unspec => simp [AgreeB]
+            | error => rw [hl] at hi; simpa [AgreeB] using hi
+            | val more =>
+              rw [hl] at hi
+              simp only [AgreeB] at hi ⊢
+              exact ⟨hi.1, by rw [hi.2.1, hbytes, hout4]; simp, hi.2.2⟩
 
 include hob hcall in
 mutual
@@ -202,10 +441,17 @@ theorem cmd_agree : (c : Cmd) → cfrag c = true → ∀ (ctx : Scope) (st : St)
     simp only [cfrag, Bool.and_eq_true, List.isEmpty_iff] at hf
     obtain ⟨hd, hfa⟩ := hf
     subst hd
-    obtain ⟨h1, h2⟩ := evalIn_sim hr arg hfa
-    rw [execCmd, Spec.Eval.renderCmd]
-    simp only [List.isEmpty_nil, Bool.not_true, Bool.false_eq_true, if_false]
+    rw [execCmd]
     unfold evalPrint
+    refine Agree.of_atNode (p := Expr.pos arg) ?_
+    have hr0 : Rel g ctx (atNode st (Expr.pos arg)) env := hr.of_heap rfl
+    clear hr
+    generalize atNode st (Expr.pos arg) = st at hr0 ⊢
+    have hr := hr0
+    obtain ⟨h1, h2⟩ := evalIn_sim hr arg hfa
+    rw [Spec.Eval.renderCmd]
+    simp only [List.isEmpty_nil, Bool.not_true, Bool.false_eq_true, if_false]
+    unfold evalPrintAt
     cases hv : Spec.Eval.eval env arg with
     | unspec => simp [Spec.Eval.Out.bind, Agree]
     | error => simp [Spec.Eval.Out.bind, Agree, h2 hv]
@@ -332,8 +578,122 @@ theorem cmd_agree : (c : Cmd) → cfrag c = true → ∀ (ctx : Scope) (st : St)
           | mk h' ro => rw [hh] at hs; simp only [Option.some.injEq] at hs; rw [← hs]
         simp [this]
   | .msg .., hf, _, _, _, _, _, _ => by simp [cfrag] at hf
-  | .forc .., hf, _, _, _, _, _, _ => by simp [cfrag] at hf
-  | .switch .., hf, _, _, _, _, _, _ => by simp [cfrag] at hf
+  | .forc _ var (.list p items) (.mk bp cs) none, hf, ctx, st, env, hr, hown, hok => by
+    simp only [cfrag, bfrag, Bool.and_eq_true] at hf
+    obtain ⟨h1, h2⟩ := evalIn_list_sim hr p items hf.1
+    have hb : ∀ ctx' st' env', Rel g ctx' st' env' → Own ctx' st' → ScopeOk ctx' st' →
+        ∃ o : Spec.Eval.ROut, Agree g ctx' st' (execBody g esc call (.mk bp cs) ctx' st') o ∧
+          Spec.Eval.renderBlock reg hasBundle esc entry scall (.mk bp cs) env' = o.bind fun q => .val q.1 := by
+      intro ctx' st' env' hr' hown' hok'
+      refine ⟨cmdsE esc reg hasBundle entry scall cs env', ?_, ?_⟩
+      · rw [execBody]; exact Agree.of_atNode (cmds_agree cs hf.2 ctx' _ env' (hr'.of_heap rfl) (hown'.atNode _) hok')
+      · rw [Spec.Eval.renderBlock]; exact renderCmds_eq esc reg hasBundle entry scall cs env'
+    rw [execCmd, Spec.Eval.renderCmd]
+    cases hv : Spec.Eval.eval env (.list p items) with
+    | unspec => simp [Spec.Eval.Out.bind, Agree]
+    | error => simp [Spec.Eval.Out.bind, Agree, h2 hv]
+    | val v =>
+      obtain ⟨id, mvs, st1, he, hveq, hsc, hheap, hout⟩ := h1 v hv
+      subst hveq
+      have hr1 : Rel g ctx st1 env := hr.of_heap hheap
+      have hok1 : ScopeOk ctx st1 := fun f hf' => by rw [hheap]; exact hok f hf'
+      simp only [Spec.Eval.Out.bind, he]
+      cases mvs with
+      | nil =>
+        simp only [List.isEmpty_nil, if_true, absL]
+        exact ⟨rfl, by rw [hout]; simp, hr1⟩
+      | cons x rest =>
+        simp only [List.isEmpty_cons, Bool.false_eq_true, if_false, absL]
+        have hl := loop_agree g (execBody g esc call (.mk bp cs)) _ (execBody_good g esc call hcall _) hb var
+          (((x :: rest).length : Int) - 1) ((absV x :: absL rest).length - 1) (x :: rest) 0 ctx st1 env hr1 hok1 hsc
+        rw [absL] at hl
+        cases hlv : Spec.Eval.loopSpec (Spec.Eval.renderBlock reg hasBundle esc entry scall (.mk bp cs)) env var
+            ((absV x :: absL rest).length - 1) (absV x :: absL rest) 0 with
+        | unspec => simp [Agree]
+        | error => rw [hlv] at hl; simpa [Agree, AgreeB] using hl
+        | val out =>
+          rw [hlv] at hl
+          simp only [AgreeB] at hl
+          exact ⟨hl.1, by rw [hl.2.1, hout], hl.2.2⟩
+  | .forc _ var (.list p items) (.mk bp cs) (some bE), hf, ctx, st, env, hr, hown, hok => by
+    simp only [cfrag, bfrag, Bool.and_eq_true] at hf
+    obtain ⟨h1, h2⟩ := evalIn_list_sim hr p items hf.1.1
+    have hb : ∀ ctx' st' env', Rel g ctx' st' env' → Own ctx' st' → ScopeOk ctx' st' →
+        ∃ o : Spec.Eval.ROut, Agree g ctx' st' (execBody g esc call (.mk bp cs) ctx' st') o ∧
+          Spec.Eval.renderBlock reg hasBundle esc entry scall (.mk bp cs) env' = o.bind fun q => .val q.1 := by
+      intro ctx' st' env' hr' hown' hok'
+      refine ⟨cmdsE esc reg hasBundle entry scall cs env', ?_, ?_⟩
+      · rw [execBody]; exact Agree.of_atNode (cmds_agree cs hf.1.2 ctx' _ env' (hr'.of_heap rfl) (hown'.atNode _) hok')
+      · rw [Spec.Eval.renderBlock]; exact renderCmds_eq esc reg hasBundle entry scall cs env'
+    rw [execCmd, Spec.Eval.renderCmd]
+    cases hv : Spec.Eval.eval env (.list p items) with
+    | unspec => simp [Spec.Eval.Out.bind, Agree]
+    | error => simp [Spec.Eval.Out.bind, Agree, h2 hv]
+    | val v =>
+      obtain ⟨id, mvs, st1, he, hveq, hsc, hheap, hout⟩ := h1 v hv
+      subst hveq
+      have hr1 : Rel g ctx st1 env := hr.of_heap hheap
+      have hok1 : ScopeOk ctx st1 := fun f hf' => by rw [hheap]; exact hok f hf'
+      simp only [Spec.Eval.Out.bind, he]
+      cases mvs with
+      | nil =>
+        simp only [List.isEmpty_nil, if_true, absL]
+        have hbe := body_agree bE hf.2 ctx st1 env hr1 hok1
+        cases hve : Spec.Eval.renderBlock reg hasBundle esc entry scall bE env with
+        | unspec => simp [Spec.Eval.Out.bind, Agree]
+        | error => rw [hve] at hbe; simpa [Spec.Eval.Out.bind, Agree, AgreeB] using hbe
+        | val out =>
+          rw [hve] at hbe
+          simp only [AgreeB] at hbe
+          exact ⟨hbe.1, by rw [hbe.2.1, hout], hbe.2.2⟩
+      | cons x rest =>
+        simp only [List.isEmpty_cons, Bool.false_eq_true, if_false, absL]
+        have hl := loop_agree g (execBody g esc call (.mk bp cs)) _ (execBody_good g esc call hcall _) hb var
+          (((x :: rest).length : Int) - 1) ((absV x :: absL rest).length - 1) (x :: rest) 0 ctx st1 env hr1 hok1 hsc
+        rw [absL] at hl
+        cases hlv : Spec.Eval.loopSpec (Spec.Eval.renderBlock reg hasBundle esc entry scall (.mk bp cs)) env var
+            ((absV x :: absL rest).length - 1) (absV x :: absL rest) 0 with
+        | unspec => simp [Agree]
+        | error => rw [hlv] at hl; simpa [Agree, AgreeB] using hl
+        | val out =>
+          rw [hlv] at hl
+          simp only [AgreeB] at hl
+          exact ⟨hl.1, by rw [hl.2.1, hout], hl.2.2⟩
+  | .forc _ _ (.null _) _ _, hf, _, _, _, _, _, _ => by simp [cfrag] at hf
+  | .forc _ _ (.bool _ _) _ _, hf, _, _, _, _, _, _ => by simp [cfrag] at hf
+  | .forc _ _ (.int _ _) _ _, hf, _, _, _, _, _, _ => by simp [cfrag] at hf
+  | .forc _ _ (.float _ _) _ _, hf, _, _, _, _, _, _ => by simp [cfrag] at hf
+  | .forc _ _ (.str _ _ _) _ _, hf, _, _, _, _, _, _ => by simp [cfrag] at hf
+  | .forc _ _ (.global _ _) _ _, hf, _, _, _, _, _, _ => by simp [cfrag] at hf
+  | .forc _ _ (.func _ _ _) _ _, hf, _, _, _, _, _, _ => by simp [cfrag] at hf
+  | .forc _ _ (.map _ _) _ _, hf, _, _, _, _, _, _ => by simp [cfrag] at hf
+  | .forc _ _ (.dataRef _ _ _) _ _, hf, _, _, _, _, _, _ => by simp [cfrag] at hf
+  | .forc _ _ (.not _ _) _ _, hf, _, _, _, _, _, _ => by simp [cfrag] at hf
+  | .forc _ _ (.neg _ _) _ _, hf, _, _, _, _, _, _ => by simp [cfrag] at hf
+  | .forc _ _ (.bin _ _ _ _) _ _, hf, _, _, _, _, _, _ => by simp [cfrag] at hf
+  | .forc _ _ (.tern _ _ _ _) _ _, hf, _, _, _, _, _, _ => by simp [cfrag] at hf
+  | .switch _ value cases, hf, ctx, st, env, hr, hown, hok => by
+    simp only [cfrag, Bool.and_eq_true] at hf
+    obtain ⟨h1, h2⟩ := evalIn_sim hr value hf.1
+    rw [execCmd, Spec.Eval.renderCmd]
+    cases hv : Spec.Eval.eval env value with
+    | unspec => simp [Spec.Eval.Out.bind, Agree]
+    | error => simp [Spec.Eval.Out.bind, Agree, h2 hv]
+    | val v =>
+      obtain ⟨mv, st1, he, habs, hsc, hheap, hout⟩ := h1 v hv
+      have hr1 : Rel g ctx st1 env := hr.of_heap hheap
+      have hok1 : ScopeOk ctx st1 := fun f hf' => by rw [hheap]; exact hok f hf'
+      have hown1 : Own ctx st1 := hown.ext (evalIn_ext (fun _ => False) he)
+      have hc := cases_agree cases mv hsc hf.2 ctx st1 env hr1 hown1 hok1
+      rw [habs] at hc
+      simp only [Spec.Eval.Out.bind, he]
+      cases hcv : Spec.Eval.renderCases reg hasBundle esc entry scall cases v env with
+      | unspec => simp [Agree]
+      | error => rw [hcv] at hc; simpa [Agree, AgreeB] using hc
+      | val out =>
+        rw [hcv] at hc
+        simp only [AgreeB] at hc
+        exact ⟨hc.1, by rw [hc.2.1, hout], hc.2.2⟩
   | .call .., hf, _, _, _, _, _, _ => by simp [cfrag] at hf
   | .namespace .., hf, _, _, _, _, _, _ => by simp [cfrag] at hf
   | .template .., hf, _, _, _, _, _, _ => by simp [cfrag] at hf
@@ -347,7 +707,7 @@ theorem body_agree : (b : Block) → bfrag b = true → ∀ (ctx : Scope) (st : 
     refine block_agree g (execBody g esc call (.mk _ cs)) _ (execBody_good g esc call hcall _) ?_ ctx st env hr hok
     intro ctx' st' env' hr' hown' hok'
     refine ⟨cmdsE esc reg hasBundle entry scall cs env', ?_, ?_⟩
-    · rw [execBody]; exact cmds_agree cs hf ctx' st' env' hr' hown' hok'
+    · rw [execBody]; exact Agree.of_atNode (cmds_agree cs hf ctx' _ env' (hr'.of_heap rfl) (hown'.atNode _) hok')
     · rw [Spec.Eval.renderBlock]; exact renderCmds_eq esc reg hasBundle entry scall cs env'
 theorem cmds_agree : (cs : CmdList) → csFrag cs = true → ∀ (ctx : Scope) (st : St) (env : Spec.Eval.Env),
     Rel g ctx st env → Own ctx st → ScopeOk ctx st →
@@ -356,9 +716,17 @@ theorem cmds_agree : (cs : CmdList) → csFrag cs = true → ∀ (ctx : Scope) (
     rw [execCmds, cmdsE]; exact ⟨rfl, by simp, hr⟩
   | .cons c rest, hf, ctx, st, env, hr, hown, hok => by
     simp only [csFrag, Bool.and_eq_true] at hf
+    rw [execCmds]
+    refine Agree.of_atNode (p := cmdPos c) ?_
+    have hr0 : Rel g ctx (atNode st (cmdPos c)) env := hr.of_heap rfl
+    have hown0 : Own ctx (atNode st (cmdPos c)) := hown.atNode _
+    have hok0 : ScopeOk ctx (atNode st (cmdPos c)) := hok
+    clear hr hown hok
+    generalize atNode st (cmdPos c) = st at hr0 hown0 hok0 ⊢
+    have hr := hr0; have hown := hown0; have hok := hok0
     have h1 := cmd_agree c hf.1 ctx st env hr hown hok
     have hg := execCmd_good g esc call hcall c ctx st hown
-    rw [execCmds, cmdsE]
+    rw [cmdsE]
     cases hv : Spec.Eval.renderCmd reg hasBundle esc entry scall c env with
     | unspec => simp [Spec.Eval.Out.bind, Agree]
     | error => rw [hv] at h1; simp only [Agree] at h1; simp [Spec.Eval.Out.bind, Agree, h1]
@@ -377,6 +745,42 @@ theorem cmds_agree : (cs : CmdList) → csFrag cs = true → ∀ (ctx : Scope) (
         rw [hv2] at h2
         simp only [Agree] at h2 ⊢
         exact ⟨h2.1, by rw [h2.2.1, hbytes]; simp, h2.2.2⟩
+theorem cases_agree : (cs : CaseList) → (sv : Value) → Scalar sv = true → casesFrag cs = true →
+    ∀ (ctx : Scope) (st : St) (env : Spec.Eval.Env), Rel g ctx st env → Own ctx st → ScopeOk ctx st →
+    AgreeB g ctx st env (execCases g esc call cs sv ctx st)
+      (Spec.Eval.renderCases reg hasBundle esc entry scall cs (absV sv) env)
+  | .nil, _, _, _, ctx, st, env, hr, _, _ => by
+    rw [execCases, Spec.Eval.renderCases]; exact ⟨rfl, by simp, hr⟩
+  | .cons _ values body rest, sv, hsv, hf, ctx, st, env, hr, hown, hok => by
+    simp only [casesFrag, Bool.and_eq_true] at hf
+    obtain ⟨m1, m2⟩ := matchCase_sim g sv hsv values st hr hf.1.1
+    rw [execCases, Spec.Eval.renderCases]
+    have conv : ∀ {st1 : St} {r : R} {o : Out Bytes}, st1.out = st.out → AgreeB g ctx st1 env r o → AgreeB g ctx st env r o := by
+      intro st1 r o ho h
+      cases o with
+      | unspec => trivial
+      | error => exact h
+      | val out => exact ⟨h.1, by rw [h.2.1, ho], h.2.2⟩
+    cases values with
+    | nil =>
+      simp only [List.isEmpty_nil, if_true, matchCase]
+      exact body_agree body hf.1.2 ctx st env hr hok
+    | cons e es =>
+      simp only [List.isEmpty_cons, Bool.false_eq_true, if_false]
+      cases hm : Spec.Eval.matchAny env (absV sv) (e :: es) with
+      | unspec => simp [Spec.Eval.Out.bind, AgreeB]
+      | error => simp [Spec.Eval.Out.bind, AgreeB, m2 hm]
+      | val b =>
+        obtain ⟨st1, hmc, hh, ho⟩ := m1 b hm
+        have hr1 : Rel g ctx st1 env := hr.of_heap hh
+        have hok1 : ScopeOk ctx st1 := fun f hf' => by rw [hh]; exact hok f hf'
+        have hown1 : Own ctx st1 := hown.ext (Ext.of_heap_eq (W := fun _ => False) hh (matchCase_ext (fun _ => False) _ _ _ _ hmc).foreign)
+        simp only [Spec.Eval.Out.bind, hmc]
+        cases b with
+        | true => simp only [if_true]; exact conv ho (body_agree body hf.1.2 ctx st1 env hr1 hok1)
+        | false =>
+          simp only [Bool.false_eq_true, if_false, List.isEmpty_cons]
+          exact conv ho (cases_agree rest sv hsv hf.2 ctx st1 env hr1 hown1 hok1)
 theorem conds_agree : (cs : CondList) → condsFrag cs = true → ∀ (ctx : Scope) (st : St) (env : Spec.Eval.Env),
     Rel g ctx st env → Own ctx st → ScopeOk ctx st →
     AgreeB g ctx st env (execConds g esc call cs ctx st) (Spec.Eval.renderConds reg hasBundle esc entry scall cs env)
@@ -426,7 +830,7 @@ theorem exec_refines_lexical_partial (b : Block) (hf : bfrag b = true) (ctx : Sc
     | .unspec => True := by
   obtain ⟨p, cs⟩ := b
   simp only [bfrag] at hf
-  have h := cmds_agree g hob esc call hcall reg hasBundle entry scall cs hf ctx st env hr hown hok
+  have h := Agree.of_atNode (cmds_agree g hob esc call hcall reg hasBundle entry scall cs hf ctx (atNode st p) env (hr.of_heap rfl) (hown.atNode p) hok)
   rw [Spec.Eval.renderBlock, renderCmds_eq, execBody]
   cases hv : cmdsE esc reg hasBundle entry scall cs env with
   | unspec => simp [Spec.Eval.Out.bind]
@@ -448,7 +852,7 @@ def ctx0 : Scope := [⟨1, false⟩, ⟨0, true⟩]
 def env0 : Spec.Eval.Env := { vars := [([120], .str [111, 117, 116])], loops := [], ij := none, globals := [] }
 
 theorem rel0 : Rel g0 ctx0 st0 env0 := by
-  refine ⟨fun k => ?_, fun k => ?_, fun k => by simp [eenv, g0, Frame.find, env0, Spec.Eval.find]⟩
+  refine ⟨fun k _ => ?_, fun k => ?_, fun k => by simp [eenv, g0, Frame.find, env0, Spec.Eval.find]⟩
   · show absV (lookup st0.heap ctx0 k) = env0.lookup k
     by_cases h : k = [120]
     · subst h; rfl
@@ -467,6 +871,23 @@ example : bufBytes (execBody g0 true (fun _ ctx st => ⟨.fuelOut, ctx, st⟩) b
   have h := exec_refines_lexical_partial g0 rfl true _ hcall [] false [] (fun _ _ => .unspec) body0 (by decide) ctx0 st0 env0 rel0
     ⟨⟨1, false⟩, [⟨0, true⟩], ⟨[], false⟩, rfl, rfl, rfl⟩ (by intro f hf; simp [ctx0] at hf; rcases hf with rfl | rfl <;> simp [st0])
   have hs : Spec.Eval.renderBlock [] false true [] (fun _ _ => .unspec) body0 env0 = .val [105, 110, 111, 117, 116] := by rfl
+  rw [hs] at h
+  simpa [bufBytes, st0] using h.2
+
+/-- `{foreach $y in ['a', 'b']}{$y}{switch $y}{case 'b'}!{/switch}{/foreach}{$x}`: "ab!out" — the loop variable is
+    gone after the loop, `x` is what it was -/
+def body1 : Block :=
+  .mk 0 (.cons (.forc 1 [121] (.list 1 (.cons (.str 1 [] [97]) (.cons (.str 1 [] [98]) .nil)))
+      (.mk 2 (.cons (.print 2 (.dataRef 2 [121] .nil) [])
+        (.cons (.switch 3 (.dataRef 3 [121] .nil) (.cons 3 [.str 3 [] [98]] (.mk 3 (.cons (.rawText 3 [33]) .nil)) .nil)) .nil))) none)
+    (.cons (.print 4 (.dataRef 4 [120] .nil) []) .nil))
+
+example : bufBytes (execBody g0 true (fun _ ctx st => ⟨.fuelOut, ctx, st⟩) body1 ctx0 st0).st.out = [97, 98, 33, 111, 117, 116] := by
+  have hcall : ∀ t, GoodRun ((fun _ ctx st => ⟨.fuelOut, ctx, st⟩ : Registry.Tmpl → Run) t) :=
+    fun _ ctx st _ => ⟨by simp, fun h => by simp at h, Ext.refl _ _⟩
+  have h := exec_refines_lexical_partial g0 rfl true _ hcall [] false [] (fun _ _ => .unspec) body1 (by decide) ctx0 st0 env0 rel0
+    ⟨⟨1, false⟩, [⟨0, true⟩], ⟨[], false⟩, rfl, rfl, rfl⟩ (by intro f hf; simp [ctx0] at hf; rcases hf with rfl | rfl <;> simp [st0])
+  have hs : Spec.Eval.renderBlock [] false true [] (fun _ _ => .unspec) body1 env0 = .val [97, 98, 33, 111, 117, 116] := by rfl
   rw [hs] at h
   simpa [bufBytes, st0] using h.2
 
